@@ -17,7 +17,7 @@ import (
 // ---------------------------------------------------------------- scenario (input chosen by TLC / the runner)
 
 type op struct {
-	Op    string `json:"op"`    // W write, R read, KU key update, K GetOutKeystream, C close, M mutate, D drain
+	Op    string `json:"op"`    // W write, R read, KU key update, K GetOutKeystream, C close, CW CloseWrite, WD expired write deadline, M mutate, D drain
 	X     string `json:"x"`     // acting side "c" | "s"; for M the side that WROTE the record
 	N     int    `json:"n"`     // W: bytes, K: keystream length
 	K     int    `json:"k"`     // R: buffer size
@@ -381,6 +381,12 @@ func (se *session) doOp(o op) bool {
 			err = fmt.Errorf("harness: side %s is not a UConn", o.X)
 		}
 		se.emit(map[string]any{"ev": "Keystream", "x": o.X, "n": o.N, "ks": hlib.Ints(ks), "err": hlib.ErrStr(err)})
+	case "CW": // half-close: close_notify goes out, the side keeps reading
+		err := sd.conn.CloseWrite()
+		se.emit(map[string]any{"ev": "CloseWrite", "x": o.X, "err": hlib.ErrStr(err)})
+	case "WD": // a write deadline that has already passed stays set on the connection
+		err := sd.conn.SetWriteDeadline(time.Now().Add(-time.Hour))
+		se.emit(map[string]any{"ev": "WriteDeadline", "x": o.X, "err": hlib.ErrStr(err)})
 	case "C":
 		err := sd.rw.Close()
 		sd.closed = true
